@@ -141,6 +141,16 @@ class ListWriter:
             out += c
         return out
 
+    def gettext(self):
+        """The response as text (UTF-8/surrogateescape decoding of every chunk; works for the
+        opaque SymBytes chunks the plugin produces for symbolic strings)."""
+        from vk.symbytes import text_of
+
+        out = ""
+        for c in self.chunks:
+            out = out + text_of(c)
+        return out
+
 
 class StrLine:
     """Stands for a bytes line read from a socket/file whose .decode() yields a given
